@@ -17,6 +17,20 @@ _LB = ("forall(lambda j, c, c2: implies({lo} < j and j <= {T} - 2 and 0 <= c and
 _LAST = "forall(lambda c: implies(0 <= c and c < {K}, {F}[{T} - 1, c] == 0))"
 
 
+# total cost of a label sequence: assignment costs + switching cost of every consecutive pair with different labels
+specfn('path_total', native="lambda C, beta, p: sum(C[t, p[t]] for t in range(len(p))) + "
+       "sum((beta[t] if hasattr(beta, '__len__') else beta) for t in range(len(p) - 1) if p[t] != p[t + 1])")
+specfn('all_sequences', native="lambda T, K: __import__('itertools').product(range(K), repeat=T)")
+
+_NATIVE = [("native:cost-is-total-of-returned-labels",
+            "result[1] == path_total(label_assignment_cost, label_switching_cost, result[0])"),
+           ("native:brute-force-minimum-over-all-K^T-sequences",
+            "label_assignment_cost.shape[1] ** label_assignment_cost.shape[0] > 5000 or "
+            "all(path_total(label_assignment_cost, label_switching_cost, result[0]) <= "
+            "path_total(label_assignment_cost, label_switching_cost, q) + 1e-9 "
+            "for q in all_sequences(label_assignment_cost.shape[0], label_assignment_cost.shape[1]))")]
+
+
 def _kernel(variant, beta_kind, beta_pre, beta_post):
     names = dict(T=_T, K=_K, F='future_cost_vals', P='path_matrix', B='label_switching_cost')
     post = dict(T=_T, K=_K, F='F', P='P', B='B', lo='-1')
@@ -35,7 +49,7 @@ def _kernel(variant, beta_kind, beta_pre, beta_post):
              requires=[_T + " >= 1", _K + " >= 1", _K + " <= 65536"] + beta_pre,
              ghost={'returns': dict(F='future_cost_vals', P='path_matrix', B='label_switching_cost'),
                     'return_kinds': dict(F='arr2[real]', P='arr2[int]', B='arr1[real]'),
-                    'dtype:path_matrix': 'uint16'},
+                    'dtype:path_matrix': 'uint16', 'native_ensures': _NATIVE},
              ensures=[("labels-length", "len(result[0]) == " + _T),
                       ("labels-in-range", "forall(0, %s, lambda t: 0 <= result[0][t] and result[0][t] < %s)" % (_T, _K)),
                       ("beta-broadcast", beta_post),
